@@ -29,6 +29,13 @@ def _wrap_site(ctx):
 
 
 def r2_any_dependent_member_wraps(ctx):
+    from . import resolveexec
+
+    resolveexec.with_fallback(ctx, ("wrap-whole-rank", "wrap-next", "entries"), _r2_wrap_decision_shape, scenarios=[s for s in resolveexec.SCENARIOS if "dependent" in s or "codes" in s])
+    _r2_dependent_flag(ctx)
+
+
+def _r2_wrap_decision_shape(ctx):
     res, call, w = _wrap_site(ctx)
     multi = A.multimap(ctx.repo)
     ctx.touch(res, w)
@@ -62,6 +69,10 @@ def r2_any_dependent_member_wraps(ctx):
         ok,
         f"`{short(defs[0], 60) if defs else flag}` is not an existential over the whole rank: a rank mixing a dependent and a static method is treated as static and reported ambiguous even when the condition is false",
     )
+
+
+def _r2_dependent_flag(ctx):
+    multi = A.multimap(ctx.repo)
     # the per-handler flag is existential over all entries of the signature, keyword entries included
     regs = [m for m in multi.methods.values() if m not in lookup_path(ctx, multi) and any(isinstance(s, ast.Assign) and any(isinstance(t, ast.Subscript) and is_self_attr(t.value, "dependent", selfname=recv_name(m)) for t in s.targets) for s in ast.walk(m.node))]
     ctx.require(regs, "no registration site of the per-handler dependent flag")
@@ -70,30 +81,7 @@ def r2_any_dependent_member_wraps(ctx):
         for s in ast.walk(m.node):
             if isinstance(s, ast.Assign) and any(isinstance(t, ast.Subscript) and is_self_attr(t.value, "dependent", selfname=recv_name(m)) for t in s.targets):
                 v = s.value
-                good = isinstance(v, ast.Call) and call_name(v) == "any" and len(v.args) == 1 and isinstance(v.args[0], (ast.GeneratorExp, ast.ListComp))
-                why = "not an existential"
-                if good:
-                    ge = v.args[0]
-                    g = ge.generators[0]
-                    var = dotted(g.target)
-                    whole = dotted(g.iter) is not None and not g.ifs
-                    e = ge.elt
-                    is_call = isinstance(e, ast.Call) and call_name(e) == "is_dependent" and len(e.args) == 1
-                    a = e.args[0] if is_call else None
-                    unwrap = (
-                        isinstance(a, ast.IfExp)
-                        and isinstance(a.test, ast.Call)
-                        and call_name(a.test) == "isinstance"
-                        and dotted(a.test.args[0]) == var
-                        and dotted(a.test.args[1]) == "tuple"
-                        and isinstance(a.body, ast.Subscript)
-                        and dotted(a.body.value) == var
-                        and isinstance(a.body.slice, ast.Constant)
-                        and a.body.slice.value == 1
-                        and dotted(a.orelse) == var
-                    )
-                    good = whole and is_call and unwrap
-                    why = "keyword entries (name, type) are skipped or not unwrapped" if whole and is_call else "does not range over the whole signature"
+                good, why = _dependent_flag_by_interpretation(ctx, m, v)
                 ctx.ob(
                     f"{m.key}:dependent-flag",
                     m.loc(s),
@@ -101,6 +89,39 @@ def r2_any_dependent_member_wraps(ctx):
                     good,
                     f"`{short(s, 70)}`: {why}: a method whose only dependent parameter is keyword-only is dispatched without its value check",
                 )
+
+
+def _dependent_flag_by_interpretation(ctx, m, value):
+    """Evaluate the stored flag (with the local statements it depends on) for every signature of 1..3 entries, each a
+    dependent or static type, positional or keyword `(name, type)`: it must say whether any entry's type is dependent."""
+    import itertools
+
+    from .common import eval_with_slice
+
+    kinds = ["D", "S", ("kw", "D"), ("kw", "S")]
+    stubs = {"is_dependent": lambda t: t == "D", "isinstance": lambda x, t: isinstance(x, tuple) if t == "tuple" else False}
+    # the signature tuple: a parameter attribute (`sig.types`) or a parameter
+    rv = recv_name(m)
+    params = [p for p in m.params if p != rv]
+    bad = None
+    n = 0
+    for k in (1, 2, 3):
+        for tup in itertools.product(kinds, repeat=k):
+            env = {"tuple": "tuple"}
+            for p in params:
+                env[p] = tup
+                env[f"{p}.types"] = tup
+            try:
+                got = eval_with_slice(m.node, value, env, stubs)
+            except AnalysisError as e:
+                return False, f"the flag's computation is not interpretable ({e})"
+            want = any((t[1] if isinstance(t, tuple) else t) == "D" for t in tup)
+            n += 1
+            if bool(got) != want and bad is None:
+                bad = (tup, got)
+    if bad:
+        return False, f"for the signature {bad[0]} (D = dependent, S = static, ('kw', .) = keyword entry) the flag is {bad[1]}"
+    return True, ""
 
 
 def r2b_dependent_at_any_depth(ctx):
